@@ -189,7 +189,9 @@ static std::string chain_wf(const Walk &w, const gr_slot *expect_last) {
     return "ok";
 }
 
-static std::string dump(gr_segment *seg, const gr_face *face, const gr_font *font, bool full_check) {
+static bool g_adv_noface = false;      // ppm suffix f: slot advances are asked for with face = NULL (documented as legal for an unhinted font)
+static std::string dump(gr_segment *seg, const gr_face *face_, const gr_font *font, bool full_check) {
+    const gr_face *face = face_;
     std::string out; char t[160];
     unsigned n = gr_seg_n_slots(seg), nc = gr_seg_n_cinfo(seg);
     Walk w; walk_from(gr_seg_first_slot(seg), 2 * (size_t)n + 8, w);
@@ -260,7 +262,7 @@ static std::string dump(gr_segment *seg, const gr_face *face, const gr_font *fon
     }
     if (full_check && wf == "ok") {
         for (size_t i = 0; i < w.s.size(); i++) {
-            float v[4] = { gr_slot_origin_X(w.s[i]), gr_slot_origin_Y(w.s[i]), gr_slot_advance_X(w.s[i], face, font), gr_slot_advance_Y(w.s[i], face, font) };
+            float v[4] = { gr_slot_origin_X(w.s[i]), gr_slot_origin_Y(w.s[i]), gr_slot_advance_X(w.s[i], g_adv_noface ? 0 : face, font), gr_slot_advance_Y(w.s[i], g_adv_noface ? 0 : face, font) };
             for (int k = 0; k < 4; k++) if (!std::isfinite(v[k])) { wf = "non-finite@" + std::to_string(i); break; }
         }
         if (!std::isfinite(gr_seg_advance_X(seg)) || !std::isfinite(gr_seg_advance_Y(seg))) wf = "non-finite-advance";
@@ -277,7 +279,7 @@ static std::string dump(gr_segment *seg, const gr_face *face, const gr_font *fon
         const gr_slot *p = w.s[i];
         snprintf(t, sizeof t, " %u,%u,%d,%d,%d,%d,%d,%d,%s,%s,%s,%s", gr_slot_gid(p), gr_slot_index(p), gr_slot_before(p), gr_slot_after(p), gr_slot_original(p),
                  posof(w, gr_slot_attached_to(p)), posof(w, gr_slot_first_attachment(p)), posof(w, gr_slot_next_sibling_attachment(p)),
-                 fnum(gr_slot_origin_X(p)).c_str(), fnum(gr_slot_origin_Y(p)).c_str(), fnum(gr_slot_advance_X(p, face, font)).c_str(), fnum(gr_slot_advance_Y(p, face, font)).c_str());
+                 fnum(gr_slot_origin_X(p)).c_str(), fnum(gr_slot_origin_Y(p)).c_str(), fnum(gr_slot_advance_X(p, g_adv_noface ? 0 : face, font)).c_str(), fnum(gr_slot_advance_Y(p, g_adv_noface ? 0 : face, font)).c_str());
         out += t;
     }
     out += " C";
@@ -417,6 +419,44 @@ int main(int argc, char **argv) {
             printf("%s\n", out.c_str()); fflush(stdout); case_end();
             continue;
         }
+        if (f.size() >= 14 && f[1] == "kern") {
+            // <id> kern <font> <hex utf32 text> <slot index> <dir> Lbx Lby Ltx Lty ox oy <neighbour dx> <margin>
+            // the limit clause of C17 on the real KernCollider, driven as Pass::resolveKern drives it: initSlot with the given limit rectangle and
+            // the offset carried over from earlier passes, mergeSlot for every following slot (each displaced by dx), resolve
+            using namespace graphite2;
+            const std::string &id = f[0];
+            gr_face *face = get_face(f[2], 0, false);
+            if (!face) { printf("%s NOFACE\n", id.c_str()); fflush(stdout); case_end(); continue; }
+            std::vector<uint32_t> u = parse_units(f[3], 32);
+            void *buf = mkbuf<uint32_t>(u);
+            int dir = atoi(f[5].c_str());
+            gr_segment *seg = gr_make_seg(0, face, 0, 0, gr_utf32, buf, u.size(), dir);
+            free(buf);
+            Segment *gs = static_cast<Segment *>(seg);
+            Slot *sl = 0;
+            if (seg) { int k = atoi(f[4].c_str()); for (Slot *q = gs->first(); q; q = q->next(), --k) if (k == 0) { sl = q; break; } }
+            if (!seg || !sl || !gs->collisionInfo(sl) || sl->attachedTo()) { if (seg) gr_seg_destroy(seg); printf("%s KERN none\n", id.c_str()); fflush(stdout); case_end(); continue; }
+            float v[6]; for (int i = 0; i < 6; i++) v[i] = (float)atof(f[6 + i].c_str());
+            float dx = (float)atof(f[12].c_str()), margin = (float)atof(f[13].c_str());
+            const GlyphCache &gc = gs->getFace()->glyphs();
+            const Rect &bbb = gs->theGlyphBBoxTemporary(sl->gid());
+            float ymax = sl->origin().y + bbb.tr.y, ymin = sl->origin().y + bbb.bl.y;
+            KernCollider kc(0);
+            bool init = false, collides = false, ok = true;
+            for (Slot *nb = sl->next(); nb && ok; nb = nb->next()) {
+                if (!gc.check(nb->gid())) break;
+                if (nb->isChildOf(sl)) continue;
+                const Rect &bb = gs->theGlyphBBoxTemporary(nb->gid());
+                if (bb.bl.y == 0.f && bb.tr.y == 0.f) break;
+                if (!init) { ok = kc.initSlot(gs, sl, Rect(Position(v[0], v[1]), Position(v[2], v[3])), margin, Position(0, 0), Position(v[4], v[5]), dir, ymin, ymax, 0); init = true; if (!ok) break; }
+                collides |= kc.mergeSlot(gs, nb, Position(dx, 0), 0, dir, 0);
+            }
+            std::string out = id + " KERN init=" + (init && ok ? "1" : "0") + " collides=" + (collides ? "1" : "0");
+            if (init && ok && collides) { Position mv = kc.resolve(gs, sl, dir, 0); out += " kern=" + fnum(mv.x) + "," + fnum(mv.y); }
+            gr_seg_destroy(seg);
+            printf("%s\n", out.c_str()); fflush(stdout); case_end();
+            continue;
+        }
         if (f.size() >= 6 && f[1] == "synth") {
             // <id> synth <font> <rtl> <ppm,ppm,...|-> <par,shx,shy,advx,advy,atx,aty,wx,wy,just> ...
             // final positioning on a hand-built attachment forest (C15): the slots of an N-character segment get the given
@@ -491,13 +531,16 @@ int main(int argc, char **argv) {
         int enc = atoi(f[5].c_str()), dir = atoi(f[6].c_str());
         gr_face *face = get_face(f[2], opts, cb);
         if (!face) { printf("%s NOFACE\n", id.c_str()); fflush(stdout); continue; }
+        // <ppm>f: gr_make_font, and the slot advances of the dump are asked for with face = NULL;
         // <ppm>: gr_make_font; <ppm>n: gr_make_font_with_ops with an application handle and no callbacks; <ppm>a: gr_make_font_with_advance_fn
         // with a handle and a NULL function -- all three are unhinted fonts
         static char font_handle[256];
         gr_font *font = 0;
+        g_adv_noface = false;
         if (f[7] != "-") {
             const float ppmv = (float)atof(f[7].c_str());
             const char suf = f[7][f[7].size() - 1];
+            g_adv_noface = (suf == 'f');
             if (suf == 'n') { gr_font_ops fops = { sizeof(gr_font_ops), 0, 0 }; font = gr_make_font_with_ops(ppmv, font_handle, &fops, face); }
             else if (suf == 'a') font = gr_make_font_with_advance_fn(ppmv, font_handle, 0, face);
             else font = gr_make_font(ppmv, face);
